@@ -66,7 +66,7 @@ func (c07Prop) Race() bool    { return false }
 
 func (c07Prop) Count(tier string) int {
 	if tier == "thorough" {
-		return 24000
+		return 40000
 	}
 	return 900
 }
@@ -166,6 +166,7 @@ func (c07Prop) Execute(p *Plan, run *Run) any {
 	}
 	data := bf.Bytes
 	target := bf.Desc.Type
+	run.Probes.Inc("type:" + pl.File.Type + "/" + pl.File.Writer)
 	codec := c.Codec()
 
 	// ---- fault-free clause
